@@ -161,6 +161,7 @@ func C03(c *core.Ctx) error {
 				map[string]any{"variant": b.v.name, "iface": vi.Iface, "method": vi.Decl, "ops": vi.Ops, "what": vi.What, "rerun": "driver -only " + vi.Iface + "." + vi.Method})
 		}
 	})
+	c.Ev.Set("rendered_type_twins", c03RenderedTypeTwins(c))
 	c.Ev.Set("states", total.Outcomes)
 	c.Ev.Set("transitions", total.Steps)
 	c.Ev.Set("traces_validated_against_impl", total.Histories)
@@ -174,8 +175,87 @@ func C03(c *core.Ctx) error {
 	c.Ev.Set("methods_explored_one_level_deeper", total.DeepMethods)
 	c.Ev.Set("methods_skipped_by_deadline", total.SkippedByDeadline)
 	c.Ev.Set("bound", map[bool]string{true: "every method: all histories to depth 2, representative methods (one per template branch): depth 3 (without the zero-tuple pattern); 45 symbols (3 call tuples + 7 setup styles x {exact(a0), Anything, exact(zero tuple / no variadic arguments)} x {unlimited, Once}); unroll-variadic unset and true, plus true on every other interface of one shared file", false: "every method: depth 3 over 87 symbols (adds exact(a2) patterns and Times(2)) for unroll-variadic unset/true, 45 symbols for false; representative methods: depth 4; full variadic element-type set"}[quick])
-	c.Ev.Set("rule", "for every corpus method and unroll-variadic setting: every sequence up to the depth over {call with 3 argument tuples (distinct / zero,nil,empty variadic / variadic with a nil element)} and {register an expectation through EXPECT() in one of 7 styles (Return, Return(zero/nil), Run+Return, RunAndReturn, whole-function provider, per-result providers, no return values) x argument pattern x repetition}, followed by the registered cleanup; each history runs on a fresh generated mock and on a shadow raw testify mock.Mock that receives the same registrations (argument layout per the documented unroll rule) and decides which expectation serves each call; compared: results = that expectation's values, callbacks/providers ran exactly once with the call's arguments and no other callback ran, unmatched call => FailNow, no return values => panic naming the method, cleanup reports unmet expectations iff raw testify does; states = distinct (method, history shape, reported-error count) outcomes")
+	c.Ev.Set("rule", "for every corpus method and unroll-variadic setting: every sequence up to the depth over {call with 3 argument tuples (distinct / zero,nil,empty variadic / variadic with a nil element)} and {register an expectation through EXPECT() in one of 7 styles (Return, Return(zero/nil), Run+Return, RunAndReturn, whole-function provider, per-result providers, no return values) x argument pattern x repetition}, followed by the registered cleanup; each history runs on a fresh generated mock and on a shadow raw testify mock.Mock that receives the same registrations (argument layout per the documented unroll rule) and decides which expectation serves each call; compared: results = that expectation's values, callbacks/providers ran exactly once with the call's arguments and no other callback ran, unmatched call => FailNow, no return values => panic naming the method, cleanup reports unmet expectations iff raw testify does; rendered-type twins: for 8 pairs of types differing in nillability x unroll-variadic, the mock of methods whose types are swapped by replace-type equals byte for byte the mock of the twin declared with the replacement type; states = distinct (method, history shape, reported-error count) outcomes")
 	c.Ev.Assume("testify v1.10.0 itself is the reference for expectation matching and Once/Times bookkeeping")
 	c.Ev.Assume("func-typed parameters are matched with mock.Anything (testify refuses func values in expectations); a history ends at the first test failure or panic")
 	return nil
+}
+
+// c03RenderedTypeTwins: what the generated mock does with a result or parameter (nil guard, zero value, variadic
+// handling) follows the type it is RENDERED with. A method whose types are swapped through replace-type must get,
+// byte for byte, the mock of the twin method declared with the replacement types directly. Pairs are chosen so
+// that original and replacement differ in nillability in both directions.
+func c03RenderedTypeTwins(c *core.Ctx) int {
+	P := core.ModPath + "/p"
+	decls := "type S struct{ N int }\n\ntype RI interface{ Foo() int }\n\ntype SL []int\n\ntype AR [2]int\n\ntype FN func() error\n\ntype MP map[string]int\n\ntype CH chan int\n\n"
+	pairs := [][2]string{{"S", "RI"}, {"RI", "S"}, {"SL", "AR"}, {"AR", "SL"}, {"S", "FN"}, {"MP", "S"}, {"AR", "CH"}, {"RI", "MP"}}
+	// x: the type at the positions replace-type rewrites (exactly the named type); the variadic element is of type
+	// []orig, which is not such a position and keeps the original type in the twin too
+	iface := func(x, orig string) string {
+		return fmt.Sprintf("type T interface {\n\tR1(a int) (r0 %s, r1 error)\n\tR2() (r0 error, r1 %s, r2 %s)\n\tP1(a0 %s, a1 string) (r0 bool)\n\tV1(a0 string, v ...%s) (r0 %s)\n\tOnly() (r0 %s)\n}\n", x, x, x, x, orig, x, x)
+	}
+	agreed := 0
+	var mu sync.Mutex
+	type job struct {
+		pair   [2]string
+		unroll bool
+	}
+	var jobs []job
+	for _, pr := range pairs {
+		jobs = append(jobs, job{pr, false}, job{pr, true})
+	}
+	core.ParallelFor(len(jobs), func(i int) {
+		j := jobs[i]
+		id := fmt.Sprintf("rendered-type twin %s -> %s, unroll-variadic=%v", j.pair[0], j.pair[1], j.unroll)
+		gen := func(tag, x string, with bool) (string, core.Result, error) {
+			pc := core.M{"all": true}
+			if with {
+				pc["replace-type"] = core.M{P: core.M{j.pair[0]: core.M{"pkg-path": P, "type-name": j.pair[1]}}}
+			}
+			cfg := core.M{"template": "testify", "formatter": "noop", "log-level": "error", "dir": "{{.InterfaceDir}}", "filename": "mocks_gen_test.go", "force-file-write": true,
+				"template-data": core.M{"unroll-variadic": j.unroll}, "include-interface-regex": "^T$", "packages": core.M{P: core.M{"config": core.M{"replace-type": pc["replace-type"]}}}}
+			if !with {
+				cfg["packages"] = core.M{P: core.M{}}
+			}
+			m, err := c.NewModule(fmt.Sprintf("c03-twin-%d-%s", i, tag), map[string]string{"p/p.go": "package p\n\n" + decls + iface(x, j.pair[0]), ".mockery.yml": core.YAML(cfg)})
+			if err != nil {
+				return "", core.Result{}, err
+			}
+			defer m.Remove()
+			r := c.RunMockery(m.Dir, nil)
+			txt, _ := m.Read("p/mocks_gen_test.go")
+			return txt, r, nil
+		}
+		a, ra, err := gen("a", j.pair[0], true)
+		if err != nil {
+			c.Harness("%v", err)
+			return
+		}
+		b, rb, err := gen("b", j.pair[1], false)
+		if err != nil {
+			c.Harness("%v", err)
+			return
+		}
+		if core.ResourceFailure(ra) || core.ResourceFailure(rb) {
+			c.Skip("%s: run gave up for lack of resources", id)
+			return
+		}
+		replay := map[string]any{"case": id, "source_with_original_type": decls + iface(j.pair[0], j.pair[0]), "replace_type": j.pair}
+		if rb.Exit != 0 || b == "" {
+			c.Harness("twin without replace-type failed (%s): %s", id, firstN(rb.Stderr, 300))
+			return
+		}
+		if ra.Exit != 0 {
+			c.Report("twin-generate:"+id, fmt.Sprintf("%s: mockery fails with replace-type (exit %d): %s", id, ra.Exit, firstN(ra.Stderr, 300)), replay)
+			return
+		}
+		if a != b {
+			c.Report("twin:"+id, fmt.Sprintf("%s: the mock generated with replace-type differs from the mock of the twin declared with the replacement type: %s", id, firstDiffLine(b, a)), replay)
+			return
+		}
+		mu.Lock()
+		agreed++
+		mu.Unlock()
+	})
+	return agreed
 }
